@@ -192,7 +192,11 @@ def run(plan):
         # float32 statistics carry eigenvalue noise ~ n u lambda_max; a root
         # value (lambda+d)^(-1/p) is only determined where lambda+d is well
         # above it
-        noise = 8 * d * 2.0 ** -24 * max(lmax, 1e-30)
+        # (the statistics are float32; the ridge is added and the
+        # eigendecomposition taken in the compute precision, where the
+        # regularised matrix has scale lambda_max + ridge)
+        ucomp = 2.0 ** -53 if w.plan.get('x64', True) else 2.0 ** -24
+        noise = 8 * d * (2.0 ** -24 * max(lmax, 1e-30) + ucomp * (lmax + hi))
         keep_ok = float(np.min(w_[keep])) + lo >= 1000 * noise
         rest_ok = len(rest) == 0 or float(np.min(w_[rest])) + lo >= 1000 * noise
         used = ([float(np.min(w_[keep]))] if keep_ok else []) + (
@@ -210,7 +214,7 @@ def run(plan):
         # retained subspace (gap-conditioned)
         proj = float(np.max(np.abs(V @ V.T - Vk @ Vk.T)))
         # eigenvector sensitivity: (float32 eigh error ~ c n u lambda_max) / gap
-        tol_p = 1e-3 + 256 * d * 2.0 ** -24 * max(lmax, 1e-30) / gap
+        tol_p = 1e-3 + 32 * noise / gap
         if tol_p > 0.02:
           ctx.ev('packed_subspace', 'vacuous')
           ctx.ev('packed_root', 'vacuous')
